@@ -132,6 +132,9 @@ func TestHarness(t *testing.T) {
 			emit(RunEp(t, calls, RandomEpChooser(ri, calls, job.Params["maxsteps"], fr), true))
 		}
 	case "resolve":
+		for _, mc := range RunMutatingGraph() {
+			emit(mc)
+		}
 		// emits one description record per root, then the cases
 		for _, zr := range ZooRoots() {
 			d := DescribeRoot(zr.Value)
@@ -285,7 +288,10 @@ func TestHarness(t *testing.T) {
 			if has("streamtear") {
 				emit(guard("streamtear", "json-raw/stream", seed, func() SysRecord { return FamStreamTear(seed) }))
 			}
-			for _, f := range []string{"values", "errors", "closures", "nest", "inforremotes", "cancel", "ctxend"} {
+			if has("framing") {
+				emit(guard("framing", "json-raw", seed, func() SysRecord { return FamFraming(seed, i%3) }))
+			}
+			for _, f := range []string{"values", "errors", "closures", "nest", "inforremotes", "cancel", "ctxend", "closureend"} {
 				if !has(f) {
 					continue
 				}
@@ -325,6 +331,11 @@ func TestHarness(t *testing.T) {
 			seed := job.Seed*104729 + int64(i)
 			for v := 0; v < 3; v++ {
 				emit(guard("framing", "json-raw", seed, func() SysRecord { return FamFraming(seed, v) }))
+			}
+			for sc := 0; sc < 2; sc++ {
+				for _, st := range []bool{false, true} {
+					emit(guard(fmt.Sprintf("parity%d", sc), "json-raw", seed, func() SysRecord { return FamParity(seed, st, sc) }))
+				}
 			}
 			for _, st := range []struct {
 				stream bool
@@ -375,6 +386,8 @@ func runFam0[T any](f string, c Codec[T], stream bool, chunk int, seed int64, n 
 		return FamCancel(c, stream, chunk, seed)
 	case "ctxend":
 		return FamCtxEnd(c, stream, chunk, seed)
+	case "closureend":
+		return FamClosureEnd(c, stream, chunk, seed)
 	default:
 		return FamNest(c, stream, chunk, seed)
 	}
